@@ -1,5 +1,8 @@
 """property id -> harness modules (each exposes cases(tier) -> [Case])"""
 REGISTRY = {
+    "C01": {"modules": ["harness.C01_shape"], "uncovered": ["Histogram (covered under C20), KDE, Distribution (sklearn objects)", "Wasserstein family"]},
+    "C02": {"modules": ["harness.C02_fit_transform"], "uncovered": []},
+    "C12": {"modules": ["harness.C12_rows"], "uncovered": ["KDE, Distribution", "Sinkhorn batch coupling (numerical tolerance of a shared stopping test)"]},
     "C06": {"modules": ["harness.C06_counts"], "uncovered": []},
     "C16": {"modules": ["harness.C16_lz"], "uncovered": ["murmurhash bit arithmetic (hash modelled as an arbitrary function; BV lemma planned)", "base_dictionary together with hashing", "the relabelling clause under injective hashing"]},
     "C19": {"modules": ["harness.C19_sliding"], "uncovered": ["window_sample='random'", "callable / changepoint function kernels", "position_velocity and gaussian_weight kernels", "index lists that are not strictly increasing (a full-length list is ignored by sliding_windows: `sample.shape[0] < width`)"]},
